@@ -12,6 +12,7 @@ from typing import Mapping
 
 from typing_extensions import Protocol
 
+from liquid2.exceptions import LiquidValueError
 from liquid2.utils import LRUCache
 from liquid2.utils import ThreadSafeLRUCache
 
@@ -180,12 +181,20 @@ class CachingLoaderMixin(ABC, _CachingLoaderProtocol):
 
         # Args take priority over context variables.
         with suppress(KeyError):
-            return f"{args[self.namespace_key]}/{name}"
+            return f"{_namespace_str(args[self.namespace_key])}/{name}"
 
         if context is None:
             return name
 
         try:
-            return f"{context.globals[self.namespace_key]}/{name}"
+            return f"{_namespace_str(context.globals[self.namespace_key])}/{name}"
         except KeyError:
             return name
+
+
+def _namespace_str(namespace: object) -> str:
+    try:
+        return str(namespace)
+    except ValueError as err:
+        # An int with more digits than the interpreter's int to str conversion limit.
+        raise LiquidValueError(str(err), token=None) from err
